@@ -10,5 +10,6 @@ CONSTANTS
   FirstWriteKeeps = FALSE
   HookEditsOld = FALSE
   LendsOld = FALSE
+  MergeFiltersSrc = FALSE
   InitKinds = {"absent", "present"}
   MaxLive = 200
